@@ -59,8 +59,11 @@ def gi(r, d, pool):
     if k == "prod":
         if r.random() < 0.3:    # a remainder / floor division as a factor (a * (b % c))
             rem = r.choice([p.Remainder, p.FloorDiv])(gnn(r, d - 1), p.Sum((gnn(r, d - 1), 2)))
-            if r.random() < 0.35:   # ... seen through a power that is emitted as its base
+            u_ = r.random()
+            if u_ < 0.35:           # ... seen through a power that is emitted as its base
                 rem = p.Power(rem, r.choice([1, 1, 2]))
+            elif u_ < 0.55:         # ... or through a one-element product / sum around it
+                rem = r.choice([p.Product, p.Sum])((rem,))
             fs = [gnn(r, d - 1), rem]
             r.shuffle(fs)
             return p.Product(tuple(fs))
